@@ -216,7 +216,12 @@ ALSO['C17'] += ' Dimensional getter, numpy indices, exports leave the object unc
 ALSO['C05'] += ' An allocation may fail at a seeded instant of the writer call (the file that was there must survive); records padded with blanks by a tool; decimal-comma locale.'
 ALSO['C06'] += ' Failing allocations inside the writer; writes through symbolic links and from changing working directories; CR line ends.'
 ALSO['C07'] += ' Failing allocations inside the writer (failed call leaves the old file, absorbed failure must leave the right file); symbolic links; working directories.'
+# (round 8 additions follow the round-7 block)
 ALSO['C16'] += ' The previous file at the name may be longer; the stored file may be cut short; warnings promoted to errors; failing allocations inside get_net_comp.'
+
+# round 8
+ALSO['C08'] += ' Coefficients handed over as numpy arrays.'
+ALSO['C13'] += ' Keyword order of the conditions shuffled.'
 
 
 def build():
